@@ -85,6 +85,8 @@ def domain(E):
                                   shapely_polygon=sg.Polygon(ring(E["verts"]), holes=[ring(E["hole"])]))
         return ShapelyPolygon(space_of(E["var"], 2), vertices=ring(E["verts"]))
     if t == "mesh":
+        if E.get("tol"):
+            return TrimeshPolyhedron(space_of(E["var"], 3), vertices=E["verts"], faces=E["faces"], tol=float(E["tol"]))
         return TrimeshPolyhedron(space_of(E["var"], 3), vertices=E["verts"], faces=E["faces"])
     if t == "point":
         dim = rg.space_vars(E)[0][1]
